@@ -61,20 +61,20 @@ macro_rules! io_case {
         let bits: $rawt = kani::any();
         let r = coerce_from_io_x(Value::$raw(bits), TypeId::$tid);
         match &r {
-            Ok(Value::$typed(y)) => { let $b = bits; assert!(*y == $expect, "C03: latched input decodes to a different value"); }
+            Ok(Value::$typed(y)) => { let $b = bits; assert!(*y == $expect, "latched input decodes to a different value (bound variable != decode(latched bytes))"); }
             Ok(_) => assert!(false, "C03: I/O latch produced a value whose tag is not the bound variable's declared type"),
-            Err(_) => assert!(false, "C03: I/O latch refused a raw value of the right width"),
+            Err(_) => assert!(false, "I/O latch refused a raw value of the right width"),
         }
         // and back: publishing a value of the declared type yields the same raw bits
         if let Ok(v) = r {
             let w = coerce_to_io_x(v, TypeId::$tid, IoSize::$size);
-            assert!(matches!(&w, Ok(Value::$raw(back)) if *back == bits), "C03: publish(latch(bits)) differs from bits");
+            assert!(matches!(&w, Ok(Value::$raw(back)) if *back == bits), "publish(latch(bits)) differs from bits (published bytes != encode(variable))");
             std::mem::forget(w);
         }
     }};
 }
 
-// @verif prop=C03 kernel=K3 tiers=quick,thorough timeout=1500 unwind=1
+// @verif prop=C03,C07 kernel=K3 tiers=quick,thorough timeout=1500 unwind=1
 // @verif what=I/O latch: coerce_from_io returns a value whose tag is the bound variable's declared elementary type for every raw image value, and coerce_to_io(coerce_from_io(bits)) = bits (integers)
 // @verif fns=io::{coerce_from_io,coerce_to_io,expected_size_for_type}
 // @verif bound=every raw BYTE/WORD/DWORD/LWORD value for declared types SINT UINT DINT ULINT
@@ -92,7 +92,7 @@ fn c03_io_latch_keeps_declared_type_ints() {
     kani::cover!(k % 4 == 3);
 }
 
-// @verif prop=C03 kernel=K3 tiers=quick,thorough timeout=1500 unwind=1
+// @verif prop=C03,C07 kernel=K3 tiers=quick,thorough timeout=1500 unwind=1
 // @verif what=I/O latch (second half of the integer types): USINT INT UDINT LINT
 // @verif fns=io::{coerce_from_io,coerce_to_io,expected_size_for_type}
 // @verif bound=every raw BYTE/WORD/DWORD/LWORD value for declared types USINT INT UDINT LINT
